@@ -3,7 +3,8 @@ from . import common as C
 
 LEAN_MODULE = "Urandom.Props.C09"
 RULE = ("requests: from_seed / urandom::seeded for seeds {0,1,!0,2^k,2^k-1, low-entropy patterns, random} on Xoshiro256, SplitMix64, Wyrand, ChaCha8/12/20: the state read back "
-        "through serde and the first outputs are compared with the model; oracle: state not all-zero, and pairwise distinct states for the distinct seeds of the run. "
+        "through serde and the first outputs are compared with the model; oracle: state not all-zero, and pairwise distinct states for the distinct seeds of the run; extra: specification-guided collision search (the seed that the documented "
+        "expansion maps to the state observed for s is computed by inverting the expansion; if it is not s the implementation is asked for its state too). "
         "non-trivial = all; distinct = distinct request line")
 ASSUMPTIONS = ["stream distinctness beyond the initial state is proved only where the output map is a bijection (SplitMix64); see Props/C09.lean"]
 
@@ -23,6 +24,8 @@ def generate(r, tier, build):
         reqs.append("word gen=xoshiro seed=%d via=from_seed ops=" % s)
         reqs.append("word gen=splitmix seed=%d via=from_seed ops=u64" % s)
         reqs.append("word gen=wyrand seed=%d via=from_seed ops=u64" % s)
+        reqs.append("word gen=splitmix seed=%d via=from_seed ops=" % s)
+        reqs.append("word gen=wyrand seed=%d via=from_seed ops=" % s)
         reqs.append("chacha n=%d seed=%d ops=u32" % (r.choice([8, 12, 20]), s))
     return reqs
 
@@ -44,7 +47,7 @@ def oracle(req, impl, build):
     if not m:
         return None
     st = m.group(1)
-    kind = classify(req, impl)
+    kind = "chacha" if req.startswith("chacha") else re.search(r"gen=(\w+)", req).group(1)
     seed = re.search(r"seed=(\d+)", req).group(1)
     if kind == "xoshiro" and all(x == "0" for x in st.split(",")):
         return "seed %s gives the all-zero Xoshiro256 state" % seed
@@ -55,9 +58,61 @@ def oracle(req, impl, build):
         other = _seen.setdefault(key, seed)
         if other != seed:
             return "seeds %s and %s give the same ChaCha key" % (other, seed)
-    if kind == "xoshiro" and req.endswith("ops="):
+    if kind in ("xoshiro", "splitmix", "wyrand") and req.endswith("ops="):
         key = (build, kind, st)
         other = _seen.setdefault(key, seed)
         if other != seed:
-            return "seeds %s and %s give the same Xoshiro256 state" % (other, seed)
+            return "seeds %s and %s give the same %s state" % (other, seed, kind)
     return None
+
+
+M1INV, M2INV, GAMMA = 0x96de1b173f119089, 0x319642b2d24d8ec3, 0x9e3779b97f4a7c15
+
+
+def unmix64(y):
+    """inverse of SplitMix64's output mix (independent Python re-implementation; cross-checked against the implementation below)"""
+    inv = lambda k, v: v ^ (v >> k) ^ (v >> (2 * k))
+    z = inv(31, y)
+    z = (z * M2INV) & C.M64
+    z = inv(27, z)
+    z = (z * M1INV) & C.M64
+    return inv(30, z)
+
+
+def extra(binary, build, tier, rng):
+    """collision search guided by the specification: the seed that SHOULD give the state the implementation produced for s is computed by inverting
+    the documented expansion; if it differs from s, and the implementation gives it the same state, two seeds collide."""
+    import re
+    n = 40 if tier == "quick" else 2000
+    ss = seeds(rng, n)
+    plan = [("xoshiro", "word gen=xoshiro seed=%d via=from_seed ops="), ("xoshiro-seeded", "word gen=xoshiro seed=%d via=seeded ops="), ("splitmix", "word gen=splitmix seed=%d via=from_seed ops="),
+            ("wyrand", "word gen=wyrand seed=%d via=from_seed ops="), ("chacha", "chacha n=12 seed=%d ops=")]
+    probes = 0
+    for kind, fmt in plan:
+        reqs = [fmt % s for s in ss]
+        rc, res, err = C.run_lines(binary, ["run"], reqs)
+        probes += len(reqs)
+        cand = []
+        for s, q, o in zip(ss, reqs, res):
+            m = re.search(r"st:([\d,]+)", o)
+            if not m:
+                continue
+            st = [int(x) for x in m.group(1).split(",")]
+            if kind.startswith("xoshiro"):
+                s2 = (unmix64(st[0]) - GAMMA) & C.M64
+            elif kind == "chacha":
+                s2 = st[0] | (st[1] << 32)
+            else:
+                s2 = st[0]
+            if s2 != s:
+                cand.append((s, s2, q, m.group(1)))
+        if cand:
+            reqs2 = [fmt % s2 for (_, s2, _, _) in cand]
+            rc, res2, err = C.run_lines(binary, ["run"], reqs2)
+            probes += len(reqs2)
+            for (s, s2, q, st), q2, o2 in zip(cand, reqs2, res2):
+                m = re.search(r"st:([\d,]+)", o2)
+                if m and m.group(1) == st:
+                    yield {"kind": "oracle", "build": build, "request": q2, "requests": [q, q2], "impl": "st:" + st, "model": "",
+                           "oracle": "seeds %d and %d give the same %s initial state" % (s, s2, kind)}
+    yield {"kind": "count", "what": "collision-probes", "n": probes, "distinct": probes}
